@@ -1,15 +1,18 @@
 #!/bin/bash
-# tools/try_mutant.sh <patch.diff> <Cxx> [quick|thorough] ...  -- apply a patch to /repo, run checks, always revert.
+# tools/try_mutant.sh <patch.diff> <Cxx> [quick|thorough] ...  -- apply a patch to the repository, run checks, always revert.
+# REPO_DIR (default /repo) and CHECK_CMD (default /verif/check) let tools/snap_matrix.sh run this on a detached copy.
 P=$1; shift
-if ! git -C /repo diff --quiet; then echo "/repo working tree is dirty; refusing"; exit 3; fi
-if ! git -C /repo apply "$P" 2>/dev/null && ! git -C /repo apply -C1 "$P" 2>/dev/null && ! (cd /repo && patch -p1 -s -F3 < "$P"); then echo "patch does not apply"; git -C /repo checkout -- .; exit 3; fi
-find /repo -name "*.orig" -newer "$P" -delete 2>/dev/null
-trap 'git -C /repo checkout -- . ; git -C /repo clean -fdq parser/tests toktrie/tests 2>/dev/null' EXIT
+REPO=${REPO_DIR:-/repo}
+CHECK=${CHECK_CMD:-/verif/check}
+if ! git -C $REPO diff --quiet; then echo "$REPO working tree is dirty; refusing"; exit 3; fi
+if ! git -C $REPO apply "$P" 2>/dev/null && ! git -C $REPO apply -C1 "$P" 2>/dev/null && ! (cd $REPO && patch -p1 -s -F3 < "$P"); then echo "patch does not apply"; git -C $REPO checkout -- .; exit 3; fi
+find $REPO -name "*.orig" -newer "$P" -delete 2>/dev/null
+trap 'git -C $REPO checkout -- . ; git -C $REPO clean -fdq parser/tests toktrie/tests 2>/dev/null' EXIT
 TIER=quick
 RES=""
 for a in "$@"; do
   if [ "$a" = quick ] || [ "$a" = thorough ]; then TIER=$a; continue; fi
-  OUT=$(cd /verif && ./check "$a" $TIER 2>&1); RC=$?
+  OUT=$($CHECK "$a" $TIER 2>&1); RC=$?
   echo "$OUT" | grep -E "VIOLATION|KNOWN-FINDING|MACHINERY|^C[0-9]+ " | head -6
   RES="$RES $a=$RC"
 done
